@@ -61,7 +61,7 @@ detected = {}
 rc, out = sh("git -C /repo apply --whitespace=nowarn %s" % patch)
 try:
     for c in checks:
-        rc, o = sh("cd /verif && timeout 1500 ./check %s --tier quick 2>&1 | tail -3" % c, 1600)
+        rc, o = sh("cd /verif && timeout 1500 ./check %s --tier quick 2>&1 | grep -E '^(PASS|FAIL|VIOLATION|KNOWN-FINDING)' | tail -4" % c, 1600)
         detected[c] = "VIOLATION" in o
         print(c, "->", o.strip().replace("\n", " || ")[-400:])
 finally:
